@@ -113,6 +113,9 @@ type vPipeCase struct {
 	SlowPub  bool        `json:"slow_publisher,omitempty"`
 	Lancero  bool        `json:"lancero,omitempty"`  // use a LanceroSource value (for error/feedback coupling); channels come in err/fb pairs
 	Hist     []vHistOp   `json:"hist,omitempty"`
+	// Gaps: frames the source skipped (lost data) before block k: the block's first frame number jumps by so many. Only used where
+	// no oracle looks at frame numbers (crash-only runs); empty elsewhere.
+	Gaps []int `json:"gaps,omitempty"`
 }
 
 func vNoise(seed, i int) int {
@@ -399,6 +402,7 @@ func vRunPipe(c *vPipeCase, observe func(tr *vTrace, k int, recs []*DataRecord) 
 	conn := map[[2]int]bool{}
 	pos := 0
 	hi := 0
+	gapSum := int64(0)
 	for k, blen := range c.Blocks {
 		for ; hi < len(c.Hist) && c.Hist[hi].At <= k; hi++ {
 			h := c.Hist[hi]
@@ -483,7 +487,10 @@ func vRunPipe(c *vPipeCase, observe func(tr *vTrace, k int, recs []*DataRecord) 
 				}
 			}
 		}
-		stamp := tr.T0.Add(time.Duration(c.F0+int64(pos)) * tr.Period)
+		if k < len(c.Gaps) && c.Gaps[k] > 0 {
+			gapSum += int64(c.Gaps[k])
+		}
+		stamp := tr.T0.Add(time.Duration(c.F0+int64(pos)+gapSum) * tr.Period)
 		if len(c.JitterNs) > 0 {
 			stamp = stamp.Add(time.Duration(c.JitterNs[k]))
 		}
@@ -501,7 +508,7 @@ func vRunPipe(c *vPipeCase, observe func(tr *vTrace, k int, recs []*DataRecord) 
 		for ch := 0; ch < c.Nchan; ch++ {
 			raw := append([]RawType(nil), tr.Truth[ch][pos:pos+blen]...)
 			block.segments[ch] = DataSegment{rawData: raw, signed: c.Streams[ch].Signed, framesPerSample: 1,
-				firstFrameIndex: FrameIndex(c.F0 + int64(pos)), firstTime: stamp, framePeriod: tr.Period,
+				firstFrameIndex: FrameIndex(c.F0 + int64(pos) + gapSum), firstTime: stamp, framePeriod: tr.Period,
 				voltsPerArb: float32(ch+1) * 0.25}
 		}
 		if err := ds.ProcessSegments(block); err != nil {
